@@ -151,12 +151,28 @@ Definition mdk (k : nat) (m : msys) : msys := mrun ls (repeat true k) m.
 Lemma mdk_S : forall k m, mdk (S k) m = mdk k (mstep_d m).
 Proof. reflexivity. Qed.
 
-Lemma Reach_step_d : forall m, Reach ds ls m -> Reach ds ls (mstep_d m).
-Proof. intros m H. exact (Reach_run ds ls m [true] H). Qed.
+(* The dialer's environment is abstract: `R` is any invariant of the message-level state that the
+   dialer's own micro-steps preserve, under which the messages still to be read are well formed
+   and a peer that has gone over to its payload has left the awaited answer in the channel.
+   Instantiated with `Reach ds ls` (the peer is the model's own listener) at the end of the
+   file, and with the invariant of an arbitrary legal peer in Peer.v. *)
+Variable R : msys -> Prop.
+Hypothesis R_step_d : forall m, R m -> R (mstep_d m).
+Hypothesis R_ok_ld : forall m, R m -> Forall okmsg (c_ld m ++ ml_wbuf (sl m)).
+Hypothesis R_guard_d : forall m q p hr, R m -> ml_ph (sl m) = MLDone (Some q) ->
+  md_ph (sd m) = MDAwait p hr -> c_ld m <> [].
+
+Lemma R_mdk : forall k m, R m -> R (mdk k m).
+Proof.
+  induction k as [|k IH]; intros m H; [exact H|]. rewrite mdk_S. apply IH. apply R_step_d. exact H.
+Qed.
+
+Lemma Reach_step_d : forall m, R m -> R (mstep_d m).
+Proof. exact R_step_d. Qed.
 
 Definition DPost (rvL : rview) (svL : sview) (m' : msys) (d' : dialer) (pin' pout' : pipe) (r : nout)
   : Prop :=
-  Reach ds ls m' /\ SLinkL svL m' /\
+  R m' /\ SLinkL svL m' /\
   match r with
   | NPending =>
       DLoc d' (sd m') /\ dl_closed m' = false /\
@@ -189,7 +205,7 @@ Proof. intros. unfold mdk. apply mrun_repeat_add. Qed.
 (* the statement proved by induction on the fuel *)
 Definition SimStmt (fuel : nat) : Prop :=
   forall d pin pout m rvL svL d' pin' pout' r,
-  Reach ds ls m -> SLinkL svL m -> DLoc d (sd m) -> dl_closed m = false ->
+  R m -> SLinkL svL m -> DLoc d (sd m) -> dl_closed m = false ->
   DirRel (SvN (d_wbuf d)) rvL pout (c_dl m) (md_wbuf (sd m)) ->
   DirRel svL (RvN (d_rd d)) pin (c_ld m) (ml_wbuf (sl m)) ->
   d_poll fuel d pin pout = (d', pin', pout', r) ->
@@ -197,7 +213,7 @@ Definition SimStmt (fuel : nat) : Prop :=
 
 (* failing: the dialer's end is dropped *)
 Lemma dpost_fail : forall rvL svL rv m1 d' pin' pout' code,
-  Reach ds ls (d_fail m1) -> SLinkL svL m1 -> 0 < code < 90 ->
+  R (d_fail m1) -> SLinkL svL m1 -> 0 < code < 90 ->
   DirRel (SvN []) rvL pout' (c_dl m1) (md_wbuf (sd m1)) ->
   DirRel svL rv pin' (c_ld m1) (ml_wbuf (sl m1)) ->
   DPost rvL svL (d_fail m1) d' pin' pout' (NErr code).
@@ -221,7 +237,7 @@ Qed.
 Lemma sim_send_header : forall f, SimStmt f ->
   forall rest rd wb pin pout m rvL svL d' pin' pout' r,
   let d := mkDialer DSendHeader rest false rd wb in
-  Reach ds ls m -> SLinkL svL m -> DLoc d (sd m) -> dl_closed m = false ->
+  R m -> SLinkL svL m -> DLoc d (sd m) -> dl_closed m = false ->
   DirRel (SvN wb) rvL pout (c_dl m) (md_wbuf (sd m)) ->
   DirRel svL (RvN rd) pin (c_ld m) (ml_wbuf (sl m)) ->
   d_poll (S f) d pin pout = (d', pin', pout', r) ->
@@ -243,7 +259,7 @@ Proof.
   - cbn [tag_from] in H.
     pose proof (ms_d_header_cons m p0 ds' Hph Emr) as Hm1.
     set (m1 := set_d m (mkD (MDSendProto p0 false) ds' (md_wbuf (sd m) ++ [MHeader]))) in *.
-    assert (HR1 : Reach ds ls m1) by (rewrite <- Hm1; apply Reach_step_d; exact HR).
+    assert (HR1 : R m1) by (rewrite <- Hm1; apply Reach_step_d; exact HR).
     assert (HL1 : SLinkL svL m1) by (destruct svL; cbn in *; exact HL).
     assert (HD1 : DLoc (mkDialer (DSendProto 0 p0 false) (tag_from (0 + 1) ds') false rd_init (fr MHeader)) (sd m1)).
     { split; [reflexivity|]. cbn. split; [reflexivity|]. split.
@@ -258,7 +274,7 @@ Qed.
 Lemma sim_send_proto : forall f, SimStmt f ->
   forall i p hr rest rd wb pin pout m rvL svL d' pin' pout' r,
   let d := mkDialer (DSendProto i p hr) rest false rd wb in
-  Reach ds ls m -> SLinkL svL m -> DLoc d (sd m) -> dl_closed m = false ->
+  R m -> SLinkL svL m -> DLoc d (sd m) -> dl_closed m = false ->
   DirRel (SvN wb) rvL pout (c_dl m) (md_wbuf (sd m)) ->
   DirRel svL (RvN rd) pin (c_ld m) (ml_wbuf (sl m)) ->
   d_poll (S f) d pin pout = (d', pin', pout', r) ->
@@ -277,7 +293,7 @@ Proof.
   change (frame (encode_msg (MProto p))) with (fr (MProto p)) in H.
   pose proof (ms_d_proto m p hr Hph Hs) as Hm1.
   set (m1 := set_d m (mkD (MDFlush p hr) (md_rest (sd m)) (md_wbuf (sd m) ++ [MProto p]))) in *.
-  assert (HR1 : Reach ds ls m1) by (rewrite <- Hm1; apply Reach_step_d; exact HR).
+  assert (HR1 : R m1) by (rewrite <- Hm1; apply Reach_step_d; exact HR).
   assert (HL1 : SLinkL svL m1) by (destruct svL; cbn in *; exact HL).
   assert (HD1 : DLoc (mkDialer (DFlush i p hr) rest false rd_init (wb ++ fr (MProto p))) (sd m1)).
   { split; [reflexivity|]. cbn. split; [reflexivity|]. split; [exact Hpos | reflexivity]. }
@@ -293,7 +309,7 @@ Qed.
 Lemma sim_flush : forall f, SimStmt f ->
   forall i p hr rest rd wb pin pout m rvL svL d' pin' pout' r,
   let d := mkDialer (DFlush i p hr) rest false rd wb in
-  Reach ds ls m -> SLinkL svL m -> DLoc d (sd m) -> dl_closed m = false ->
+  R m -> SLinkL svL m -> DLoc d (sd m) -> dl_closed m = false ->
   DirRel (SvN wb) rvL pout (c_dl m) (md_wbuf (sd m)) ->
   DirRel svL (RvN rd) pin (c_ld m) (ml_wbuf (sl m)) ->
   d_poll (S f) d pin pout = (d', pin', pout', r) ->
@@ -307,7 +323,7 @@ Proof.
   pose proof (d_moves ls k m p hr Hph Hk) as Hmk.
   set (mk := mkS (mkD (MDFlush p hr) (md_rest (sd m)) (skipn k (md_wbuf (sd m)))) (sl m)
                  (c_dl m ++ firstn k (md_wbuf (sd m))) (dl_closed m) (c_ld m) (ld_closed m)) in *.
-  assert (HRk : Reach ds ls mk) by (rewrite <- Hmk; apply Reach_run; exact HR).
+  assert (HRk : R mk) by (rewrite <- Hmk; apply (R_mdk k); exact HR).
   assert (HLk : SLinkL svL mk) by (destruct svL; cbn in *; exact HL).
   destruct ok.
   - destruct (Hok eq_refl) as [-> Hkw].
@@ -316,7 +332,7 @@ Proof.
     { cbn. rewrite Hkw. apply skipn_all. }
     pose proof (ms_d_flush_nil mk p hr eq_refl Hwk) as Hm1.
     set (m1 := set_d mk (mkD (MDAwait p hr) (md_rest (sd mk)) [])) in *.
-    assert (HR1 : Reach ds ls m1) by (rewrite <- Hm1; apply Reach_step_d; exact HRk).
+    assert (HR1 : R m1) by (rewrite <- Hm1; apply Reach_step_d; exact HRk).
     assert (HL1 : SLinkL svL m1) by (destruct svL; cbn in *; exact HL).
     assert (HD1 : DLoc (mkDialer (DAwait i p hr) rest false rd_init []) (sd m1)).
     { split; [reflexivity|]. cbn. split; [reflexivity|]. split; [exact Hpos | reflexivity]. }
@@ -334,7 +350,7 @@ Qed.
 Lemma sim_await : forall f, SimStmt f ->
   forall i p hr rest rd wb pin pout m rvL svL d' pin' pout' r,
   let d := mkDialer (DAwait i p hr) rest false rd wb in
-  Reach ds ls m -> SLinkL svL m -> DLoc d (sd m) -> dl_closed m = false ->
+  R m -> SLinkL svL m -> DLoc d (sd m) -> dl_closed m = false ->
   DirRel (SvN wb) rvL pout (c_dl m) (md_wbuf (sd m)) ->
   DirRel svL (RvN rd) pin (c_ld m) (ml_wbuf (sl m)) ->
   d_poll (S f) d pin pout = (d', pin', pout', r) ->
@@ -346,8 +362,8 @@ Proof.
   destruct (msg_poll rd pin) as [[st1 pi1] mr] eqn:Em.
   assert (Hg : forall pw fin, svL = SvP pw fin -> c_ld m <> []).
   { intros pw fin ->. cbn in HL. destruct HL as [q Hq].
-    exact (await_has_message ds ls m q p hr wfd_ds HR Hq Hph). }
-  pose proof (dir_recv _ _ _ _ _ _ _ _ (ok_ld m HR) Hg Hin Em) as Hrecv.
+    exact (R_guard_d m q p hr HR Hq Hph). }
+  pose proof (dir_recv _ _ _ _ _ _ _ _ (R_ok_ld m HR) Hg Hin Em) as Hrecv.
   destruct mr as [| |x|code].
   - (* nothing complete yet *)
     injection H as <- <- <- <-. exists 0%nat. rewrite mdk_0.
@@ -369,7 +385,7 @@ Proof.
     destruct (d_react p hr x) eqn:Er.
     + (* the header: keep waiting *)
       set (m1 := set_d (pop_ld m c') (mkD (MDAwait p true) (md_rest (sd m)) (md_wbuf (sd m)))) in *.
-      assert (HR1 : Reach ds ls m1) by (rewrite <- Hm1; apply Reach_step_d; exact HR).
+      assert (HR1 : R m1) by (rewrite <- Hm1; apply Reach_step_d; exact HR).
       assert (HL1 : SLinkL svL m1) by (destruct svL; cbn in *; exact HL).
       assert (HD1 : DLoc (mkDialer (DAwait i p true) rest false rd_init []) (sd m1)).
       { split; [reflexivity|]. cbn. split; [reflexivity|]. split; [exact Hpos | reflexivity]. }
@@ -394,7 +410,7 @@ Proof.
         -- unfold C_FAILED. lia.
       * destruct (Pos_next _ _ _ _ _ Hpos) as (drest' & -> & Hpos').
         set (m1 := set_d (pop_ld m c') (mkD (MDSendProto p' hr) mrest (md_wbuf (sd m)))) in *.
-        assert (HR1 : Reach ds ls m1) by (rewrite <- Hm1; apply Reach_step_d; exact HR).
+        assert (HR1 : R m1) by (rewrite <- Hm1; apply Reach_step_d; exact HR).
         assert (HL1 : SLinkL svL m1) by (destruct svL; cbn in *; exact HL).
         assert (HD1 : DLoc (mkDialer (DSendProto (i + 1) p' hr) drest' false rd_init []) (sd m1)).
         { split; [reflexivity|]. cbn. split; [reflexivity|]. split; [exact Hpos'|].
@@ -424,3 +440,12 @@ Proof.
 Qed.
 
 End SimD.
+
+(* ---- the instance used by the two-ended system: the peer is the model's own listener *)
+Lemma d_poll_sim_reach : forall ds ls, Forall wfn ds -> forall fuel, SimStmt ds ls (Reach ds ls) fuel.
+Proof.
+  intros ds ls Hwf. apply d_poll_sim; [exact Hwf| | |].
+  - intros m H. exact (Reach_run ds ls m [true] H).
+  - intros m H. exact (ok_ld ds ls Hwf m H).
+  - intros m q p hr HR Hq Hph. exact (await_has_message ds ls m q p hr (wfd_ds ds Hwf) HR Hq Hph).
+Qed.
